@@ -109,6 +109,16 @@ def h_identity_neutral(env, N):
         env.goal('left_neutral', b_and(arr_eq(b.gs, mg), arr_eq(b.ps, mp)))
         env.goal('operand_unchanged', b_and(arr_eq(m.gs, mg), arr_eq(m.ps, mp)))
         env.goal('returns_new_map', (a is not m) and (b is not m) and isinstance(a, M.st.CliffordMap))
+    # identity_map hands out fresh tables: one that was changed in place does not leak into the next request
+    def spoil_and_request():
+        e = M.st.identity_map(N)
+        e.gs[0] = e.gs[-1]
+        e.ps[:] = 2
+        e.rotate_by(M.pa.Pauli(env.const([1, 1] * N), 0))
+        return M.st.identity_map(N)
+    r2 = env.run(spoil_and_request)
+    idg, idp = identity_table(N)
+    env.goal('identity_after_spoiling_an_earlier_identity', b_and(b_not(r2.raised), b_and(arr_eq(r2.value.gs, idg), arr_eq(r2.value.ps, idp)) if r2.value is not None else False))
 
 
 def h_inverse(env, N, fix=None):
